@@ -87,6 +87,10 @@ EXPLANATION += (
     ' Round 10: the batch search of the on-disk transposition stops only after an end of the batch was recorded (R-COVER/batch-search).'
 )
 
+EXPLANATION += (
+    " Round 14: a keyword slot whose name the caller holds a value for is not given the local the same call hands to that local's own slot (R-FWD/keyword-not-crossed)."
+)
+
 RULE_TEXT = (
     "one obligation per arithmetic relation (quotient, multiplier, "
     "comparison operator, conjunction operand) and per guard; polynomial "
